@@ -3,6 +3,7 @@ import RtcModel.IcePrio
 import RtcModel.IceCand
 import RtcModel.Turn
 import RtcModel.StunRfc
+import RtcModel.IceUri
 import RtcModel.Base.C16Crypto
 import RtcModel.Drv.Util
 namespace RtcModel.Drv.C16
@@ -287,6 +288,14 @@ def handle (stream : String) (args : List String) : String :=
       let mi := match key with | some k => b01 (integrityOk realPrims k b) | none => "-"
       s!"hdr={b01 (headerOk b)} attrs={nattrs} mi={mi} fp={b01 (fingerprintOk realPrims b)}"
     | _, _ => "bad-args"
+  | "uri", [h] =>
+    match strOfHex h with
+    | some u =>
+      match IceUri.parse u with
+      | .ok r => s!"ok {match r.kind with | .stun => "stun" | .turn => "turn"} {hexOfStr r.host} {r.port} {match r.transport with | .udp => "udp" | .tcp => "tcp"}"
+      | .error .noScheme => "err noscheme" | .error .port => "err port" | .error .scheme => "err scheme"
+      | .error .transport => "err transport" | .error .stunTransport => "err stuntransport"
+    | none => "bad-hex"
   | "hash", [alg, a, b] =>
     match unhex a, unhex b with
     | some a, some b =>
